@@ -11,7 +11,9 @@ import (
 // documents whose keys are delivered by reference (buffers overwritten after each
 // event) into map targets; the result equals the result of an unfolder without
 // cache. Keys are symbolic single bytes (plus one two-byte key), so hits, misses,
-// evictions and re-insertion after eviction all occur on some path.
+// evictions and re-insertion after eviction all occur on some path. LONGKEY=n: the
+// last key has n bytes; REENABLE=1: EnableKeyCache is called again between the two
+// documents with a second symbolic capacity.
 func KEYCACHE(h *rt.H) {
 	capacity := h.Choose("cap", h.Param("MINCAP", 0), h.Param("CAP", 3))
 	nk := h.Param("KEYS", 4)
@@ -19,10 +21,16 @@ func KEYCACHE(h *rt.H) {
 	vals := make([]int8, nk)
 	for i := range keys {
 		n := 1
-		if i == nk-1 && h.Param("LONGKEY", 1) == 1 {
+		if i == nk-1 && h.Param("LONGKEY", 1) >= 1 {
 			n = 2
 		}
 		keys[i] = h.Bytes("k", n)
+		if l := h.Param("LONGKEY", 1); i == nk-1 && l > 2 {
+			// LONGKEY=n > 2: the last key is n bytes long (two symbolic bytes, then a pattern)
+			for j := 2; j < l; j++ {
+				keys[i] = append(keys[i], byte('a'+j%26))
+			}
+		}
 		vals[i] = int8(h.U8("v"))
 	}
 	split := h.Choose("split", 1, nk) // keys[:split] in document 1, the rest in document 2
@@ -48,7 +56,7 @@ func KEYCACHE(h *rt.H) {
 		// key (what a parser reading documents into the same buffer does) and scribbled
 		// at the very end; otherwise every key has its own buffer, scribbled right away
 		shared := h.Param("SHAREDBUF", 0) == 1
-		sbuf := make([]byte, 2)
+		sbuf := make([]byte, 2+h.Param("LONGKEY", 1))
 		defer func() {
 			for j := range sbuf {
 				sbuf[j] = 0xEE
@@ -61,6 +69,11 @@ func KEYCACHE(h *rt.H) {
 			}
 			if lo == hi {
 				continue
+			}
+			if d == 1 && cache && h.Param("REENABLE", 0) == 1 {
+				// the cache is configured again between two documents (an unfolder taken
+				// from a pool and set up anew), possibly with another capacity
+				u.EnableKeyCache(h.Choose("cap2", 0, h.Param("CAP", 3)))
 			}
 			if typed {
 				r.err = u.SetTarget(&r.ints[d])
